@@ -238,6 +238,12 @@ def op_moved(lg, sv, tag, its):
     return "R:%s:%d:%s:%s" % (lgw(lg), sv, tagw(tag), itemsw(its))
 
 
+def op_bound(d, lg, sv, tag, its):
+    """1: auto s = L::sv(tag) << first;   2: auto&& s = L::sv(tag);   3: auto&& s = L::sv(tag) << first;   then s << rest…;
+    (for 1 and 3 the first item is a string, a number or a function object)"""
+    return "B%d:%s:%d:%s:%s" % (d, lgw(lg), sv, tagw(tag), itemsw(its))
+
+
 def op_direct(lg, sv, msg):
     """L::will_log(record of severity sv) observed, then L::log(sv, record with message msg) called directly"""
     return "D:%s:%d:%s" % (lgw(lg), sv, hx(msg))
@@ -391,6 +397,11 @@ def quick_deterministic():
                             shs = shapes_for(lg)
                             yield case(mn, pre + [op_moved(lg, sv, TAGS[n % 2], shape_items(shs[(n * 3 + 1) % len(shs)]))]), "moved-grid"
                             yield case(mn, pre + [op_direct(lg, sv, "d%d" % (n % 7))]), "direct-grid"
+                            # declaration forms: a reference bound to a << chain (always) and one of the other two (rotating)
+                            first = [("S", "f"), ("N", 5), ("C", 9, "g", "o")][n % 3]
+                            rest = shape_items(shs[(n * 5 + 2) % len(shs)])
+                            yield case(mn, pre + [op_bound(3, lg, sv, TAGS[n % 2], [first] + rest)]), "declaration-grid"
+                            yield case(mn, pre + [op_bound(1 + n % 2, lg, sv, TAGS[(n + 1) % 2], [first] + rest)]), "declaration-grid"
                         # a failing insertion before / between / after callables at every cell
                         for j in range(2):
                             sh = FAIL_SHAPES[(n + 3 * j) % len(FAIL_SHAPES)]
@@ -473,8 +484,12 @@ def rand_program(rng, mn=None):
                 ops.append(op_one(lg, sv, rand_tag(rng), fit(lg, its), ctx))
             elif q < 0.85:
                 ops.append(op_local(lg, sv, rand_tag(rng), its, ctx))
-            elif q < 0.95:
+            elif q < 0.9:
                 ops.append(op_moved(lg, sv, rand_tag(rng), its))
+            elif q < 0.95:
+                d = rng.choice([1, 2, 3, 3])
+                first = [rng.choice([("S", "f"), ("N", -3), ("C", 9, "g", "o")])] if d != 2 else []
+                ops.append(op_bound(d, lg, sv, rand_tag(rng), first + its))
             else:
                 ops.append(op_direct(lg, sv, "".join(rng.choice("ab \x00") for _ in range(rng.choice([0, 2, 20])))))
         elif r < 0.6:
